@@ -1,3 +1,95 @@
-import Chiritori.Spec.Holds
+import Chiritori.Lemmas.FormatMerge
+/-
+  C02 — No over-removal, C03 — No under-removal (proved together).
+
+  `Statement`: whenever `clean` returns, its output is the input with exactly the ready extents
+  (Spec.extentsOfSource: whole element for the default strategy, the two wrapper parts of C11 for unwrap-block,
+  of every element whose condition holds and that is not skipped) taken out, and then some spaces, tabs and
+  line breaks taken out (`Spec.wsSubseq` = the greedy, complete decision procedure for that relation).
+  * C02: nothing outside the extents disappears except whitespace; order is preserved (a subsequence).
+  * C03: every byte inside a ready extent disappears - also for elements nested in pending, skipped or
+    unregistered elements, in other ready elements, or in the body of an unwrap-block.
+  That `clean` does return (never panics) is C01.
+-/
 namespace Chiritori.Props.C02
+open Chiritori Chiritori.Spec
+
+/-- marker coverage as `inAny` of the marker ranges -/
+theorem inAny_markers (ms : List Marker) (i : Nat) :
+    inAny (ms.map fun m => (m.start, m.stop)) i = true ↔ mcov ms i := by
+  simp [inAny, mcov, Rng.contains]
+
+theorem minusRanges_congr (b : Bytes) (rs rs' : List Rng) (h : ∀ i, inAny rs i = inAny rs' i) :
+    minusRanges b rs = minusRanges b rs' := by
+  rw [minusRanges_eq_minusFrom, minusRanges_eq_minusFrom]
+  exact minusFrom_congr b 0 rs rs' (fun i _ _ => h i)
+
+/-- what `remove` leaves: the source minus the ready extents -/
+theorem removed_eq (src ds de : List Char) (cfg : Cfg) (hde : de ≠ []) (removed : Bytes)
+    (h : removeMarkers (bytesOf src) (buildRemoveMarker cfg (bytesOf src) (parseSource src ds de)) = .ok removed) :
+    removed = minusRanges (bytesOf src) (extentsOfSource src ds de cfg) := by
+  obtain ⟨hs, hc⟩ := buildRemoveMarker_spec src ds de cfg hde
+  rw [removeMarkers_eq _ _ 0 (blen src) hs removed h]
+  apply minusRanges_congr
+  intro i
+  rw [Bool.eq_iff_iff, inAny_markers, hc i]
+
+def Statement : Prop :=
+  ∀ (src ds de : List Char) (cfg : Cfg) (out : List Char), ds ≠ [] → de ≠ [] →
+    clean src ds de cfg = .ok out → c02c03Holds src ds de cfg out = true
+
+theorem c02_c03 : Statement := by
+  intro src ds de cfg out _ hde h
+  unfold clean at h
+  simp only [bind, Except.bind, pure, Except.pure] at h
+  cases hrm : removeMarkers (bytesOf src) (buildRemoveMarker cfg (bytesOf src) (parseSource src ds de)) with
+  | error e => rw [hrm] at h; simp at h
+  | ok removed =>
+    rw [hrm] at h
+    simp only at h
+    cases hpos : getRemovedPos (buildRemoveMarker cfg (bytesOf src) (parseSource src ds de)) with
+    | error e => rw [hpos] at h; simp at h
+    | ok pos =>
+      rw [hpos] at h
+      simp only at h
+      cases hf : format removed pos with
+      | error e => rw [hf] at h; simp at h
+      | ok o =>
+        rw [hf] at h
+        simp only at h
+        injection h with h
+        subst h
+        have hremoved := removed_eq src ds de cfg hde removed hrm
+        obtain ⟨s1, hs1⟩ := deleteAll_wellFormed src _ removed hrm
+        rw [hs1] at hf
+        obtain ⟨hws, s2, hs2⟩ := format_wsSub s1 pos o hf
+        unfold c02c03Holds
+        rw [← hremoved, hs1, hs2, charsOf_bytesOf, ← hs2]
+        exact wsSubseq_of_WsSub _ _ hws
+
+/-! Corollaries in the words of the properties. -/
+
+/-- C03: the non-whitespace text of the output is the non-whitespace text of the input minus the ready extents -/
+theorem nonws_eq (k o : Bytes) (h : WsSub k o) : k.filter (fun x => !isWs x) = o.filter (fun x => !isWs x) := by
+  induction h with
+  | nil => rfl
+  | keep x _ ih => simp [List.filter_cons, ih]
+  | skip x hx _ ih => simp [List.filter_cons, hx, ih]
+
+/-- C02: the output is a subsequence of the input (cleaning only deletes, order is preserved) -/
+theorem sublist_of_WsSub (k o : Bytes) (h : WsSub k o) : o.Sublist k := by
+  induction h with
+  | nil => exact List.Sublist.slnil
+  | keep x _ ih => exact ih.cons_cons x
+  | skip x _ _ ih => exact ih.cons x
+
+/-! Non-vacuity: a document with a ready element nested in a pending one, and an unwrap-block. -/
+def exCfg : Cfg := ⟨"tl".toList, "rm".toList, 1577836800, 0, "+00:00".toList, ["a".toList]⟩
+def exSrc : List Char :=
+  "a\n<rm name='b'>\n  <tl to='2000-01-01 00:00:00'>\n  x\n  </tl>\ny\n</rm>\n<rm name='a' unwrap-block>\n{\n  z\n}\n</rm>\n".toList
+example : (extentsOfSource exSrc "<".toList ">".toList exCfg).length = 3 := by decide +kernel
+example : (match clean exSrc "<".toList ">".toList exCfg with
+    | .ok o => o == "a\n<rm name='b'>\ny\n</rm>\nz\n".toList
+    | .error _ => false) = true := by decide +kernel
+
 end Chiritori.Props.C02
